@@ -43,3 +43,36 @@ def pipeline_sources(repo):
             if kind == 'assign' and isinstance(v, ast.Call) and dotted(v.func) == 'Pipeline' and v.args:
                 out[name] = norm_text(U.expand_locals(fi.node, v.args[0], defs))
     return out
+
+
+def effect_closure(repo, res, seeds, scope_prefixes=('wpull.',), exclude=('wpull.thirdparty',), ignore_call=None):
+    """May-effects of every function: seeds {qualname: label}; a function has label L
+    if it is a seed for L or (transitively) calls one.  Returns (effects, callmap) where
+    callmap[qual] = list of (call_node, [callee quals])."""
+    funcs = [f for f in repo.funcs.values() if f.module.name.startswith(scope_prefixes)
+             and not f.module.name.startswith(exclude)]
+    callmap = {}
+    for f in funcs:
+        lst = []
+        for c in U.calls(f.node):
+            if ignore_call is not None and ignore_call(f, c):
+                continue
+            cal = [g.qual for g in res.callee_funcs(f, c, allow_name=True, count=False)]
+            if cal:
+                lst.append((c, cal))
+        callmap[f.qual] = lst
+    eff = {f.qual: set() for f in funcs}
+    for q, lab in seeds.items():
+        eff.setdefault(q, set()).add(lab)
+    changed = True
+    while changed:
+        changed = False
+        for f in funcs:
+            cur = eff[f.qual]
+            for c, cal in callmap[f.qual]:
+                for g in cal:
+                    new = eff.get(g, set()) - cur
+                    if new:
+                        cur |= new
+                        changed = True
+    return eff, callmap
